@@ -87,12 +87,15 @@ def fresh_process_twins(rep, tier, seed):
                   "history": c16.deep_gp_history(20 if tier == "quick" else 30, [])})
     for i, kind in enumerate(["hb_promotion", "fifo", "synchb"][: (2 if tier == "quick" else 3)]):
         specs.append({"what": "simulation", "kind": kind, "seed": seed + i, "n_workers": 2 + i})
+    # PASHA on tie-heavy learning curves: sets of trial ids are involved in its ranking logic (hash seeds 0 and 2)
+    specs.append({"what": "pasha_ties", "kind": "pasha_ties", "seed": 11, "n": 12 if tier == "quick" else 40, "suggests": 30})
     runs = []
     from concurrent.futures import ThreadPoolExecutor
     jobs = []
     with ThreadPoolExecutor(max_workers=8) as ex:
         for s in specs:
-            jobs.append((s, ex.submit(proc, dict(s, np_seed=1, py_seed=2), 11), ex.submit(proc, dict(s, np_seed=77, py_seed=99), 4242)))
+            ha, hb = (0, 2) if s["what"] == "pasha_ties" else (11, 4242)
+            jobs.append((s, ex.submit(proc, dict(s, np_seed=1, py_seed=2), ha), ex.submit(proc, dict(s, np_seed=77, py_seed=99), hb)))
         for s, fa, fb in jobs:
             a, b = fa.result(), fb.result()
             runs.append({"ev": [{"same": a == b, "excused": False}], "crashed": False,
